@@ -22,12 +22,56 @@ READ = {"AAA": "Very Readable", "AA": "Readable", "FAIL": "Not Readable"}
 
 
 def shards(tier, seed):
-    return [{"kind": "comp", "seed": seed, "idx": i, "n": SIZES[tier]} for i in range(16)]
+    return [{"kind": "comp", "seed": seed, "idx": i, "n": SIZES[tier]} for i in range(16)] + \
+           [{"kind": "grammar", "seed": seed, "idx": i, "n": SIZES[tier] // 4} for i in range(4)]
+
+
+def grammar(shard, rec, lib):
+    """Translucent texts written by C07's grammar (percentages, fractional hsl, odd whitespace, any hue): the foreground is not an
+    8-bit colour, so rounding and truncation both bite - this is where the 1.5 bound is tight."""
+    from cmv.props import c07
+    rnd = G.rng("c13g", shard["seed"], shard["idx"])
+    n = 0
+    while n < shard["n"]:
+        name, text = c07.gen_func(rnd)
+        if not name.endswith("a"):
+            continue
+        n += 1
+        bgc = G.uniform(rnd)
+        bk, bg = rnd.choice(SP.available(bgc, ["hex6", "tuple", "rgb", "keyword", "list"]))
+        ref = csscolor.parse(text)
+        case = {"text": text, "tk": name, "bg": SP.jsonable(bg), "bk": bk, "fg": [str(c) for c in ref.rgb], "alpha": str(ref.alpha), "bgc": list(bgc), "large": False, "grammar": True}
+        rec.ev()
+        try:
+            pair = lib.ColorPair(text, bg)
+            trgb, brgb, valid = pair.text.rgb, pair.bg.rgb, pair.is_valid
+        except Exception as e:
+            rec.violation(f"ColorPair({text!r},{bg!r}) raised {type(e).__name__}: {e}", case)
+            continue
+        rec.count("kind:grammar-" + name)
+        if not valid or tuple(brgb) != tuple(bgc):
+            rec.violation(f"ColorPair({text!r},{bg!r}) rejected / misread a valid pair: errors {pair.errors}, bg {brgb}", case)
+            continue
+        exact = csscolor.blend(ref.rgb, ref.alpha, brgb)
+        dev = max(abs(float(e) - c) for e, c in zip(exact, trgb))
+        rec.count("composite_judged")
+        rec.maxi("max_composite_dev_grammar", round(dev, 6))
+        if 0 < ref.alpha < 1:
+            rec.nontrivial((text, bgc))
+        if dev > BLEND_TOL:
+            rec.violation(f"ColorPair({text!r},{bg!r}).text.rgb = {trgb}; exact blend over its own background {tuple(round(float(e), 3) for e in exact)} (dev {dev:.3f} > 1.5)", case)
+            continue
+        ratio = wcag.ratio(tuple(trgb), tuple(brgb))
+        rec.count("label_judged")
+        if pair.is_readable != READ[wcag.level(ratio, False)] and all(abs(ratio - th) > 1e-9 * th for th in (4.5, 7.0)):
+            rec.violation(f"ColorPair({text!r},{bg!r}).is_readable = {pair.is_readable!r}; composite {trgb} on {brgb} has ratio {ratio:.4f}", case)
 
 
 def work(shard, rec):
     from cmv.lib import Lib
     lib = Lib()
+    if shard["kind"] == "grammar":
+        return grammar(shard, rec, lib)
     rnd = G.rng("c13", shard["seed"], shard["idx"])
     for i in range(shard["n"]):
         fg = G.uniform(rnd) if i % 5 else rnd.choice([(0, 0, 0), (255, 255, 255), (255, 0, 0), (128, 128, 128)])
@@ -133,7 +177,7 @@ def replay(case):
     text = SP.from_json(case["text"], case["tk"])
     bg = SP.from_json(case["bg"], case["bk"])
     pair = lib.ColorPair(text, bg, large_text=case["large"])
-    exact = csscolor.blend(case["fg"], Fraction(case["alpha"]), pair.bg.rgb)
+    exact = csscolor.blend([Fraction(c) for c in case["fg"]], Fraction(case["alpha"]), pair.bg.rgb)
     dev = max(abs(float(e) - c) for e, c in zip(exact, pair.text.rgb))
     print(f"ColorPair({text!r},{bg!r}): text.rgb {pair.text.rgb}, bg.rgb {pair.bg.rgb}, exact blend {[round(float(e), 3) for e in exact]}, dev {dev:.4f}, is_readable {pair.is_readable}")
     if "mode" in case:
